@@ -22,6 +22,12 @@ def fault_bases(ctx):
          {"op": "writefile", "name": "/p/q/f", "flags": hist.O_WRONLY | hist.O_APPEND, "perm": 0o644, "blob": 0}, {"op": "chown", "name": "/p", "uid": 5, "gid": 6},
          {"op": "rename", "name": "/p/q", "name2": "/z"}, {"op": "remove", "name": "/z/f"}, {"op": "stat", "name": "/z"}, {"op": "reopen"}],
     ]
+    # a read handle whose entry disappears (removed, renamed, parent removed) before its first read: the calls on the stale
+    # handle and everything after them have to return
+    for gone in ([{"op": "remove", "name": "/h/f"}], [{"op": "rename", "name": "/h/f", "name2": "/h/g"}], [{"op": "removeall", "name": "/h"}], [{"op": "rename", "name": "/h", "name2": "/k"}]):
+        fixed.append([{"op": "mkdir", "name": "/h", "perm": 0o755}, {"op": "createfile", "name": "/h/f", "blob": 0}, {"op": "open", "h": "s", "name": "/h/f", "flags": 0, "perm": 0}] + gone +
+                     [{"op": "read", "h": "s", "n": 10, "tmo": 6000}, {"op": "seek", "h": "s", "whence": 0, "off": 3, "tmo": 6000}, {"op": "readat", "h": "s", "n": 4, "off": 1, "tmo": 6000},
+                      {"op": "close", "h": "s", "tmo": 6000}, {"op": "mkdir", "name": "/after", "perm": 0o755, "tmo": 6000}])
     for calls in fixed:
         hs.append({"config": {"rs": 3, "cache": "file"}, "blobs": [{"seed": 1, "len": 700}, {"seed": 2, "len": 2000}],
                    "calls": [{"op": "initialize"}] + calls, "obs": []})
